@@ -36,11 +36,11 @@ def keptOrdinary (c : Converted) (s : SrcToken) : Bool :=
 /-- A special source token is a special of the result with its id and kind ("keeps special/added tokens
     as specials with their ids and kinds"; the text of the unknown token may be replaced by the surface
     form the source library prints for it), or — the only permitted id change — with its bytes and kind
-    under a new id when its id belongs to a different vocabulary entry. -/
-def keptSpecial (c : Converted) (s : SrcToken) (k : SpecialKind) : Bool :=
+    under a new id when its id belongs to a different vocabulary token of the source. -/
+def keptSpecial (src : List SrcToken) (c : Converted) (s : SrcToken) (k : SpecialKind) : Bool :=
   c.specials.any fun sp => sp.kind == k &&
     ((sp.id == s.id && (sp.bytes == s.bytes || k == .unknown)) ||
-     (sp.bytes == s.bytes && c.vocab.any fun v => v.1 == s.id && v.2 != s.bytes))
+     (sp.bytes == s.bytes && src.any fun v => v.special.isNone && v.id == s.id && v.bytes != s.bytes))
 
 /-- Nothing is invented: every vocabulary entry of the result is a source token (for a source token
     about which nothing is claimed — unused, malformed — only the id is compared). -/
@@ -67,7 +67,7 @@ def scoresKept (src : List SrcToken) (c : Converted) : Bool :=
 
 /-- The decidable form of the property, evaluated by the driver on every converted source. -/
 def keepsCheck (src : List SrcToken) (c : Converted) : Bool :=
-  (src.all fun s => match s.special with | none => keptOrdinary c s | some k => keptSpecial c s k) &&
+  (src.all fun s => match s.special with | none => keptOrdinary c s | some k => keptSpecial src c s k) &&
   c.vocab.all (fromSource src) && orderedByPriority src c.vocab && scoresKept src c
 
 /-- The property as a proposition. -/
@@ -77,7 +77,7 @@ structure Keeps (src : List SrcToken) (c : Converted) : Prop where
   special : ∀ s ∈ src, ∀ k, s.special = some k →
     ∃ sp ∈ c.specials, sp.kind = k ∧
       ((sp.id = s.id ∧ (sp.bytes = s.bytes ∨ k = .unknown)) ∨
-       (sp.bytes = s.bytes ∧ ∃ v ∈ c.vocab, v.1 = s.id ∧ v.2 ≠ s.bytes))
+       (sp.bytes = s.bytes ∧ ∃ v ∈ src, v.special = none ∧ v.id = s.id ∧ v.bytes ≠ s.bytes))
   noInvention : ∀ e ∈ c.vocab, ∃ s ∈ src, s.id = e.1 ∧ (s.bytes = e.2 ∨ s.unused = true)
 
 end Kitoken.Spec
